@@ -41,6 +41,7 @@ inductive Op where
   | clientRemoveToxic (proxy name : String)
   | proxies
   | reset
+  | populate (ps : List CProxy)           -- Client.Populate(config)
 
 def jstr (s : String) : J := .str s
 def jfrac (f : Frac) : J := .num (if f.den == 1 then some f.num else none) (some f)
@@ -53,6 +54,12 @@ ignores it; engine E5 drops that key before comparing.) -/
 def proxyBody (p : CProxy) : Body :=
   .val (.obj [("name", jstr p.name), ("listen", jstr p.listen), ("upstream", jstr p.upstream),
               ("enabled", .bool p.enabled)])
+
+/-- One element of `json.Marshal(config)` in `Client.Populate`: the whole `Proxy` struct, i.e. the
+four fields and the (nil) toxic list, which the server ignores. -/
+def populateEntry (p : CProxy) : J :=
+  .obj [("name", jstr p.name), ("listen", jstr p.listen), ("upstream", jstr p.upstream),
+        ("enabled", .bool p.enabled), ("toxics", .null)]
 
 /-- `json.Marshal(&Toxic{…})`: stream has `omitempty`; toxicity −1 has been replaced by 1. -/
 def addToxicBody (name type stream : String) (toxicity : Option Frac) (attrs : Attrs) : Body :=
@@ -103,6 +110,7 @@ def run (v : UpdVariant) (e : Env) (s : State) (op : Op) : Outcome :=
     if o1.failed then o1 else send v e o1 (req .delete ["proxies", p, "toxics", n] .empty)
   | .proxies => send v e o0 (req .get ["proxies"] .empty)
   | .reset => send v e o0 (req .post ["reset"] .empty)
+  | .populate ps => send v e o0 (req .post ["populate"] (.val (.arr (ps.map populateEntry))))
 
 /-! ### Proxy handles
 
